@@ -753,7 +753,7 @@ static void hook_client_pdu(const struct rpdu *p)
 		ev("cache:%s", RESP_NAME[kind]);
 		respond(kind, p);
 		/* C05/C13 model updates that depend on what was answered */
-		if (kind == RS_CACHE_RESET || (LAST.form == 'R' && kind != RS_CUT_TIMEOUT && kind != RS_CUT_ERR) || kind == RS_ERR_NODATA) {
+		if (kind == RS_CACHE_RESET || LAST.form == 'R' || kind == RS_ERR_NODATA) {
 			MON.have = false;
 			MON.reset_cause = true;
 		}
@@ -1045,6 +1045,10 @@ static void setup_menus(void)
 		menu_add(RS_CLOSE);
 		menu_add(RS_TRERR);
 		menu_add(RS_RESTART);
+		/* exchanges that fail only after a well-formed End of Data of the right session was read */
+		menu_add(RS_DUP);
+		menu_add(RS_WD_UNKNOWN);
+		menu_add(RS_CUT_TIMEOUT);
 		OPEN_MENU[NOPEN++] = O_FAIL_SLOW;
 		IDLE_MENU[NIDLE++] = I_STOP;
 		IDLE_MENU[NIDLE++] = I_NOTIFY;
